@@ -583,6 +583,80 @@ func countdown(in ssa.Instruction) (top, count int64, ok bool) {
 	return K, count, true
 }
 
+// countdownWrap recognises a bit cursor that is decremented while it is above L and otherwise reset to
+// K (if s > L { s-- } else { s = K; next byte }): a web of phis fed only by the constant K, by each
+// other and by member-1. It takes the values K..L, i.e. K-L+1 of them.
+func countdownWrap(in ssa.Instruction) (top, count int64, ok bool) {
+	ph, isPhi := in.(*ssa.Phi)
+	if !isPhi || !isInt(ph.Type()) || !isShiftCount(ph, 0) {
+		return 0, 0, false
+	}
+	web := map[*ssa.Phi]bool{}
+	consts := map[int64]bool{}
+	decs := 0
+	bad := false
+	var walk func(p *ssa.Phi)
+	walk = func(p *ssa.Phi) {
+		if web[p] {
+			return
+		}
+		web[p] = true
+		for _, e := range p.Edges {
+			if k, isK := constInt(e); isK {
+				consts[k] = true
+			} else if q, isQ := e.(*ssa.Phi); isQ {
+				walk(q)
+			} else if bo, isBo := e.(*ssa.BinOp); isBo && bo.Op == token.SUB {
+				if one, isOne := constInt(bo.Y); isOne && one == 1 {
+					if q, isQ := bo.X.(*ssa.Phi); isQ {
+						decs++
+						walk(q)
+						continue
+					}
+				}
+				bad = true
+			} else {
+				bad = true
+			}
+		}
+	}
+	walk(ph)
+	if bad || len(consts) == 0 || decs == 0 || len(web) < 2 {
+		return 0, 0, false
+	}
+	K := int64(-1 << 62) // several start / reset constants: the largest is judged (they must all be the top bit)
+	for k := range consts {
+		if k > K {
+			K = k
+		}
+	}
+	// the guard of the decrement: member > L (or member != 0 / member >= L+1)
+	count = -1
+	for p := range web {
+		for _, ref := range *p.Referrers() {
+			bo, isBo := ref.(*ssa.BinOp)
+			if !isBo || bo.X != ssa.Value(p) {
+				continue
+			}
+			l, isK := constInt(bo.Y)
+			if !isK {
+				continue
+			}
+			switch bo.Op {
+			case token.GTR:
+				count = K - l + 1
+			case token.GEQ:
+				count = K - l + 2
+			case token.NEQ, token.EQL:
+				if l == 0 {
+					count = K + 1
+				}
+			}
+		}
+	}
+	return K, count, true
+}
+
 // maskWalk recognises a one-hot byte mask that starts at a constant power of two and moves right
 // by one position per step (mask >>= 1), and returns the bit index it starts at; wraps reports
 // whether the moved mask is compared with zero (all lower positions used).
@@ -819,8 +893,20 @@ func ruleSextet(c *Ctx) *RuleResult {
 		sort.Slice(out, func(i, j int) bool { return out[i] < out[j] })
 		return out
 	}
-	cdTop := func(in ssa.Instruction) (int64, bool) { t, _, ok := countdown(in); return t, ok }
-	cdBits := func(in ssa.Instruction) (int64, bool) { _, n, ok := countdown(in); return n, ok && n >= 0 }
+	cdTop := func(in ssa.Instruction) (int64, bool) {
+		if t, _, ok := countdown(in); ok {
+			return t, true
+		}
+		t, _, ok := countdownWrap(in)
+		return t, ok
+	}
+	cdBits := func(in ssa.Instruction) (int64, bool) {
+		if _, n, ok := countdown(in); ok {
+			return n, n >= 0
+		}
+		_, n, ok := countdownWrap(in)
+		return n, ok && n >= 0
+	}
 	mkTop := func(in ssa.Instruction) (int64, bool) { t, _, ok := maskWalk(in); return t, ok }
 	mkBits := func(in ssa.Instruction) (int64, bool) { t, w, ok := maskWalk(in); return t + 1, ok && w }
 	for _, d := range []string{"graph.Graph6Decode", "graph.Sparse6Decode"} {
